@@ -537,6 +537,9 @@ class Evaluator:
     # ---------------------------------------------------------------- calls
     def apply_closure(self, cv, args, ctx):
         cv = strip(cv)
+        if isinstance(cv, tuple) and cv and cv[0] == 'fnitem' and cv[1] in self.facts.by_path:
+            # a named function passed where a closure is expected
+            cv = ('closure', cv[1], {})
         if not (isinstance(cv, tuple) and cv[0] == 'closure'):
             return None
         cf = self.facts.by_path.get(cv[1])
